@@ -3,15 +3,15 @@
 import json, os, shutil, sys, subprocess
 pid, m, needs = sys.argv[1], sys.argv[2], sys.argv[3]
 RND = os.environ.get("ROUND", "1")
-R2 = RND in ("2", "3", "4", "5", "6", "7")   # rounds 2 and 3: sub-agents worked on the current tree (all fixes applied)
-root = {"1": "/tmp/mut", "2": "/tmp/mut2", "3": "/tmp/mut3", "4": "/tmp/mut4", "5": "/tmp/mut5", "6": "/tmp/mut6", "7": "/tmp/mut7"}[RND]
+R2 = RND in ("2", "3", "4", "5", "6", "7", "8")   # rounds 2 and 3: sub-agents worked on the current tree (all fixes applied)
+root = {"1": "/tmp/mut", "2": "/tmp/mut2", "3": "/tmp/mut3", "4": "/tmp/mut4", "5": "/tmp/mut5", "6": "/tmp/mut6", "7": "/tmp/mut7", "8": "/tmp/mut8"}[RND]
 src = f"{root}/{pid}/_out/{m}"
 dst = f"/verif/seeded/{pid}-r{RND}-{m}" if R2 else f"/verif/seeded/{pid}-{m}"
 os.makedirs(dst, exist_ok=True)
 for f in ["patch.diff", "demo.diff", "NOTES.md", "patch.rebased.diff"]:
     if os.path.exists(f"{src}/{f}"):
         shutil.copy(f"{src}/{f}", f"{dst}/{f}")
-lf = {"1": "/tmp/confirm_batch1.log", "2": "/tmp/confirm_round2.log", "3": "/tmp/confirm_round3.log", "4": "/tmp/confirm_round4.log", "5": "/tmp/confirm_round5.log", "6": "/tmp/confirm_round6.log", "7": "/tmp/confirm_round7.log"}[RND]
+lf = {"1": "/tmp/confirm_batch1.log", "2": "/tmp/confirm_round2.log", "3": "/tmp/confirm_round3.log", "4": "/tmp/confirm_round4.log", "5": "/tmp/confirm_round5.log", "6": "/tmp/confirm_round6.log", "7": "/tmp/confirm_round7.log", "8": "/tmp/confirm_round8.log"}[RND]
 log = open(lf).read() if os.path.exists(lf) else ""
 conf = [l for l in log.splitlines() if f"{root}/{pid}/_out/{m}:" in l]
 meta = {
@@ -19,7 +19,7 @@ meta = {
   "origin": ("independent sub-agent given only the property text and a scratch worktree of the current tree (hooks and fix: commits included)" if R2 else "independent sub-agent given only the property text and a scratch worktree of the pinned base commit bbf5222"),
   "needs_to_manifest": needs,
   "confirmed": conf[-1] if conf else "NOT CONFIRMED",
-  "what_i_ran": "tools/confirm_mutant.sh (scratch worktree of " + ("HEAD" if R2 else "bbf5222") + ": demo.diff alone -> cargo nextest all pass; demo.diff + patch.diff -> the 81 existing tests pass and only the demo tests fail), then " + ("tools/trial.sh <patch> quick <checks> (the change applied to a scratch worktree of /repo's HEAD, the checks run from a copy of /verif's harness pointed at that worktree; /repo itself untouched)" if RND in ("4", "5", "6", "7") else "tools/try_mutant.sh <patch> quick <checks> against /repo (git apply, run, git checkout)"),
+  "what_i_ran": "tools/confirm_mutant.sh (scratch worktree of " + ("HEAD" if R2 else "bbf5222") + ": demo.diff alone -> cargo nextest all pass; demo.diff + patch.diff -> the 81 existing tests pass and only the demo tests fail), then " + ("tools/trial.sh <patch> quick <checks> (the change applied to a scratch worktree of /repo's HEAD, the checks run from a copy of /verif's harness pointed at that worktree; /repo itself untouched)" if RND in ("4", "5", "6", "7", "8") else "tools/try_mutant.sh <patch> quick <checks> against /repo (git apply, run, git checkout)"),
   "apply_to_current_tree": "patch.rebased.diff" if os.path.exists(f"{src}/patch.rebased.diff") else "patch.diff",
   "detected_by": {},
 }
